@@ -857,7 +857,7 @@ func (t *dtr) call(x *ast.CallExpr, tv types.TypeAndValue) ([]bnd, string) {
 		p, a := t.ex(x.Args[0])
 		return p, "(g_len " + a + ")"
 	case "append":
-		if ct := t.coqType(tv.Type); t.mode == "api" && (ct == "(list (Z * string))" || ct == "(list (list byte))") && x.Ellipsis == token.NoPos {
+		if ct := t.coqType(tv.Type); t.mode == "api" && (ct == "(list (Z * string))" || ct == "(list (list byte))" || ct == "(list (reg * gvalue))") && x.Ellipsis == token.NoPos {
 			p, a := t.ex(x.Args[0])
 			var parts []string
 			for _, el := range x.Args[1:] {
@@ -897,6 +897,12 @@ func (t *dtr) call(x *ast.CallExpr, tv types.TypeAndValue) ([]bnd, string) {
 		}
 		return p, fmt.Sprintf("(%s ++ [%s])", a, strings.Join(parts, "; "))
 	case "make":
+		if ct := t.coqType(tv.Type); t.mode == "api" && ct == "(list (reg * gvalue))" && len(x.Args) >= 2 {
+			if lv := t.info.Types[x.Args[1]].Value; lv == nil || lv.ExactString() != "0" {
+				t.bad(x, "make with a non-zero length")
+			}
+			return nil, "(@nil (reg * gvalue))"
+		}
 		if ct := t.coqType(tv.Type); t.mode == "api" && (ct == "(list (Z * string))" || ct == "(list (list byte))") && len(x.Args) >= 2 {
 			if lv := t.info.Types[x.Args[1]].Value; lv == nil || lv.ExactString() != "0" {
 				t.bad(x, "make with a non-zero length")
@@ -1798,6 +1804,19 @@ func (t *dtr) rangeStmt(x *ast.RangeStmt, rest []ast.Stmt, c *dctx) string {
 		t.nOracle++
 		return wrapBinds(pre, t.loop(x, "range_map (Z * string) bool", fmt.Sprintf("ord%d %s", t.nOracle, l), kn+" "+vn+" ", x.Body.List, rest, c))
 	}
+	if t.mode == "api" && x.Tok == token.DEFINE && strings.HasPrefix(t.info.Types[x.X].Type.String(), "map[string]github.com/koestler/go-victron/vedirectapi.") {
+		pre, l := t.ex(x.X)
+		if id, ok := x.Key.(*ast.Ident); !ok || id.Name != "_" {
+			t.bad(x, "range over a value map with a key variable")
+		}
+		vid, ok := x.Value.(*ast.Ident)
+		if !ok || vid.Name == "_" {
+			t.bad(x, "range form")
+		}
+		vn := t.declare(t.info.Defs[vid])
+		t.nOracle++
+		return wrapBinds(pre, t.loop(x, "range_map (list byte) (reg * gvalue)", fmt.Sprintf("ord%d %s", t.nOracle, l), "_ "+vn+" ", x.Body.List, rest, c))
+	}
 	if t.mode == "api" && x.Tok == token.DEFINE && t.coqType(t.info.Types[x.X].Type) == "(list (Z * string))" {
 		pre, l := t.ex(x.X)
 		if id, ok := x.Key.(*ast.Ident); !ok || id.Name != "_" {
@@ -1895,6 +1914,9 @@ func (t *dtr) function(fd *ast.FuncDecl) string {
 		t.recv = t.info.Defs[fd.Recv.List[0].Names[0]]
 		if rt := strings.TrimPrefix(types.ExprString(fd.Recv.List[0].Type), "*"); rt == "FieldListValue" {
 			params = append(params, fmt.Sprintf("(%s : flv)", t.declare(t.recv)))
+			t.recv = nil
+		} else if rt == "RegisterValues" {
+			params = append(params, fmt.Sprintf("(%s : regvalues)", t.declare(t.recv)))
 			t.recv = nil
 		} else if t.mode == "ble" {
 			params = append(params, "(c : blecfg)")
@@ -2061,7 +2083,7 @@ func translateDrv(repo, outPath string) {
 
 func translateApi(repo, outPath string) {
 	translatePkg(repo, outPath, "api", "vedirectapi",
-		[]string{"ReadNumberRegister", "ReadTextRegister", "ReadEnumRegister", "ReadFieldListRegister", "StreamRegisterList", "NewRegisterApi", "CommaString"},
+		[]string{"ReadNumberRegister", "ReadTextRegister", "ReadEnumRegister", "ReadFieldListRegister", "StreamRegisterList", "NewRegisterApi", "CommaString", "GetList"},
 		"From Coq Require Import QArith.\nFrom GV Require Import Vedirect.DrvSem Gen.DrvImpl Api.ApiSem.\nImport ListNotations.\nLocal Open Scope Z_scope.\n\n",
 		"GoLite-D -> Gallina translation of the register readers and the streaming loop (tie T-gen).")
 }
@@ -2143,7 +2165,7 @@ func translatePkg(repo, outPath, mode, pkgName string, entries []string, header,
 				}
 				if fd.Recv != nil && len(fd.Recv.List) == 1 {
 					rt := strings.TrimPrefix(types.ExprString(fd.Recv.List[0].Type), "*")
-					if rt != "Vedirect" && rt != "RegisterApi" && rt != "RegisterList" && rt != "BleStruct" && rt != "FieldListValue" {
+					if rt != "Vedirect" && rt != "RegisterApi" && rt != "RegisterList" && rt != "BleStruct" && rt != "FieldListValue" && rt != "RegisterValues" {
 						continue // methods of other types are not translated
 					}
 				}
